@@ -4,7 +4,10 @@ use crate::error::{RecvError, TryRecvError, TrySendError};
 use core::task::{Context, Poll};
 use std::fmt;
 use std::mem::MaybeUninit;
+#[cfg(not(all(excsn_fibre_verif, excsn_fibre_verif_shuttle)))]
 use std::sync::atomic::{AtomicBool, AtomicUsize, Ordering};
+#[cfg(all(excsn_fibre_verif, excsn_fibre_verif_shuttle))]
+use crate::internal::sync::{AtomicBool, AtomicUsize, Ordering};
 use parking_lot::Mutex;
 
 // State constants for OneShotShared::state
